@@ -107,7 +107,7 @@ class Check:
         os.makedirs(os.path.join(VERIF, "evidence", "replay"), exist_ok=True)
         out_lines = []
         if new_hits:
-            for i, h in enumerate(new_hits[:5]):
+            for i, h in enumerate(new_hits[:1]):
                 path = os.path.join(VERIF, "evidence", "replay", "%s-%d.json" % (self.pid, i))
                 json.dump(dict(property=self.pid, what=h["what"], replay=h.get("replay"),
                                broken=[b["name"] for b in self.broken]), open(path, "w"), indent=1)
@@ -124,9 +124,11 @@ class Check:
         if self.notes:
             self.cov["notes"] = self.notes
         vlib.write_evidence(self.pid, self.tier, self.seed, self.cov, wall, violations, self.assumptions)
-        for b in self.broken:
+        for b in self.broken[:4]:
             print("BROKEN: %s" % b["name"])
             print("   " + b["detail"][-1500:].replace("\n", "\n   "))
+        if len(self.broken) > 4:
+            print("BROKEN: ... and %d more" % (len(self.broken) - 4))
         for h in new_hits[:5]:
             print("FAIL: %s" % h["what"])
         for l in out_lines:
